@@ -9,6 +9,7 @@ GNext == cfg = <<>> /\ \E B \in GenBuses : cfg' = B
 Probes(B) ==
     LET m == B[1]
         banks == {m.b0, m.b1, B[2].b0, B[2].b1, B[2].b0 - 1} \cup (IF m.m0 = NoMirror THEN {} ELSE {m.m0, m.m1})
+                 \cup (IF B[2].m0 = NoMirror THEN {} ELSE {B[2].m0, B[2].m1})
     IN { b * 65536 + o : b \in banks, o \in {m.lo, m.lo + 1, m.lo + 4660, m.hi - 2, m.hi - 1, m.hi} }
 Emit == cfg = <<>> \/ PrintT(ToJson([decls |-> cfg, probes |-> Probes(cfg) \cup {8257536, 8323071, 8388607 - 65536},
                                      incs |-> {0, 1, 2, 3, 32767, 32768, 65536}]))
